@@ -528,6 +528,8 @@ struct Trace {
 	decs: Vec<u64>,
 	/// the harness's own bookkeeping says the decoder kept ahead throughout (paced mode: exact; free mode: by construction)
 	ahead: bool,
+	/// (position, state) of the static and of the streaming handle before the first callback
+	initial: Option<((f64, PlaybackState), (f64, PlaybackState))>,
 	/// iterations of the decoder loop (an upper bound of the frames pushed; above the ring size the ring wrapped around)
 	iters: u64,
 }
@@ -654,12 +656,19 @@ fn run_direct(ids: &Ids, sc: &Scenario) -> Trace {
 	let mut st = Side::default();
 	let mut sm = Side::default();
 	let mut created = false;
+	let mut initial = None;
 	let r = catch(|| {
 		let (mut xs, mut hs) = static_data(ids, sc).into_sound().unwrap();
-		st.obs.push(0);
 		let (mut ys, mut hy) = ydata.into_sound().unwrap();
-		sm.obs.push(0);
 		created = true;
+		// what the handles report before the first callback
+		st.obs.push(obs64(hs.position()));
+		st.obs.push(state_code(hs.state()));
+		sm.obs.push(obs64(hy.position()));
+		sm.obs.push(state_code(hy.state()));
+		initial = Some(((hs.position(), hs.state()), (hy.position(), hy.state())));
+		st.obs.push(0);
+		sm.obs.push(0);
 		let rmax = rate_bound(sc);
 		// free mode bookkeeping: a lower bound of the ring's entries; paced mode: the exact number
 		let mut lb: i64 = 1;
@@ -760,7 +769,7 @@ fn run_direct(ids: &Ids, sc: &Scenario) -> Trace {
 		*pending().lock().unwrap() = None;
 	}
 	let iters = ctl2.iters.load(std::sync::atomic::Ordering::Relaxed);
-	Trace { st, sm, tab, panicked, decs, ahead, iters }
+	Trace { st, sm, tab, panicked, decs, ahead, initial, iters }
 }
 
 // ------------------------------------------------------------------------------------------
@@ -786,6 +795,12 @@ fn monitors(s: &mut Session, desc: &str, sc: &Scenario, tr: &Trace) -> bool {
 	}
 	if !tr.ahead || sc.outside {
 		return true; // outside the hypothesis (deliberately starved): model comparison only
+	}
+	// before the first callback: the same position and state
+	if let Some(((ps, ss), (py, sy))) = tr.initial {
+		if obs64(ps) != obs64(py) || ss != sy {
+			fail(s, format!("before the first callback: static handle reports position {ps} state {ss:?}, streaming handle position {py} state {sy:?}"));
+		}
 	}
 	// same output frames, same state and finished() after every process call
 	for (k, (a, b)) in tr.st.calls.iter().zip(tr.sm.calls.iter()).enumerate() {
@@ -1175,6 +1190,9 @@ fn manager_pair(s: &mut Session, ids: &Ids, r: &mut Rng) {
 		let mut my = simple_manager(dev, ibs);
 		let mut hs = ms.play(static_data(ids, &sc)).unwrap();
 		let mut hy = my.play(ydata).unwrap();
+		if obs64(hs.position()) != obs64(hy.position()) || hs.state() != hy.state() {
+			diffs.push(format!("before the first callback: static handle reports position {} state {:?}, streaming handle position {} state {:?}", hs.position(), hs.state(), hy.position(), hy.state()));
+		}
 		let rmax = rate_bound(&sc);
 		let mut lb: i64 = 1;
 		let mut finished = false;
